@@ -92,7 +92,9 @@ def cases(draw, tier):
     if mode == "rademacher_diag":
         n = draw(st.integers(1, 12)) if draw(st.integers(1, 5)) > 1 else draw(st.sampled_from([99, 100, 101, 150, 260]))  # both sides of the probe block size 100
         return {"mode": mode, "n": n, "seed": draw(st.integers(0, 10**5)), "key": draw(st.integers(1, 2**31 - 1)),
-                "max_iters": draw(st.integers(1, 8)), "via": draw(st.sampled_from(["hutch", "diag_hutch", "trace_hutch"]))}
+                "max_iters": draw(st.integers(1, 8)), "via": draw(st.sampled_from(["hutch", "diag_hutch", "trace_hutch"])),
+                # offset of the single non-zero diagonal of the operator (Rademacher probes recover it exactly as well)
+                "k": draw(st.sampled_from([0, 0, 1, -1, 2, -5, 3]))}
     steps = []
     pool = draw(st.lists(call_spec(), min_size=1, max_size=3))
     for _ in range(draw(st.integers(2, 8))):
@@ -470,12 +472,21 @@ def _check(case, out, mode):
             d = d + 1j * rs.integers(-5, 6, size=n)
         A = cola.ops.Diagonal(d)
         out.nontrivial = True
+        kk = case.get("k", 0)
+        if kk != 0 and abs(kk) < n and case["via"] != "trace_hutch":
+            # a matrix whose only non-zero diagonal is the kk-th one: Rademacher probes give that diagonal exactly
+            Mk = np.diag(d[:n - abs(kk)], kk)
+            A = cola.ops.LinearOperator(Mk.dtype, (n, n), matmat=lambda X, Mk=Mk: Mk @ X)
+            d = d[:n - abs(kk)]
+            out.label("offset_diagonal")
+        else:
+            kk = 0
         try:
             if case["via"] == "hutch":
-                est, _ = hutchinson_diag_estimate(A, k=0, tol=1.0001e-3, max_iters=case["max_iters"], rand="rademacher", key=case["key"])
+                est, _ = hutchinson_diag_estimate(A, k=kk, tol=1.0001e-3, max_iters=case["max_iters"], rand="rademacher", key=case["key"])
                 ref = d
             elif case["via"] == "diag_hutch":
-                est = L.diag(cola.no_dispatch(A), 0, L.Hutch(tol=1.0001e-3, max_iters=case["max_iters"], rand="rademacher", key=case["key"]))
+                est = L.diag(cola.no_dispatch(A), kk, L.Hutch(tol=1.0001e-3, max_iters=case["max_iters"], rand="rademacher", key=case["key"]))
                 ref = d
             else:
                 est = L.trace(cola.no_dispatch(A), L.Hutch(tol=1.0001e-3, max_iters=case["max_iters"], rand="rademacher", key=case["key"]))
